@@ -242,7 +242,9 @@ namespace Dune {
           if(eq<T, cstyle>(T(lower), val, epsilon)) return lower;
           if(T(lower) > val) { upper = lower; lower--; }
           else upper = lower+1;
-          if(le<T, cstyle>(val - T(lower), T(upper) - val, epsilon))
+          // the integer below val is upper-1; its distance to val is computed from upper because
+          // lower has wrapped around if I is unsigned and val lies in (-1,0)
+          if(le<T, cstyle>(val - (T(upper) - T(1)), T(upper) - val, epsilon))
             return lower;
           else return upper;
         }
@@ -258,7 +260,9 @@ namespace Dune {
           if(eq<T, cstyle>(T(lower), val, epsilon)) return lower;
           if(T(lower) > val) { upper = lower; lower--; }
           else upper = lower+1;
-          if(lt<T, cstyle>(val - T(lower), T(upper) - val, epsilon))
+          // the integer below val is upper-1; its distance to val is computed from upper because
+          // lower has wrapped around if I is unsigned and val lies in (-1,0)
+          if(lt<T, cstyle>(val - (T(upper) - T(1)), T(upper) - val, epsilon))
             return lower;
           else return upper;
         }
